@@ -2,9 +2,11 @@ package main
 
 import (
 	"go/token"
+	"sort"
 	"strings"
 
 	"golang.org/x/tools/go/packages"
+	"golang.org/x/tools/go/ssa"
 )
 
 // c15StagedUntilFlush (STAGED-UNTIL-FLUSH; C15 and C17, after round-5 seed C15-c): generated files are staged in memory
@@ -24,29 +26,74 @@ func c15StagedUntilFlush(c *Ctx) {
 		return
 	}
 	destructive := map[string]bool{"Create": true, "OpenFile": true, "WriteFile": true, "Rename": true, "Remove": true, "RemoveAll": true, "Truncate": true, "CreateTemp": true}
-	n, inClosures := 0, 0
-	for _, sf := range p.SSAFuncsOf([]*packages.Package{pk}) {
-		if sf.Signature.Recv() == nil || !strings.HasSuffix(namedPath(derefType(sf.Signature.Recv().Type())), "bufprotopluginos.responseWriter") {
-			continue
+	isWriter := func(f *ssa.Function) bool {
+		return f.Signature.Recv() != nil && strings.HasSuffix(namedPath(derefType(f.Signature.Recv().Type())), "bufprotopluginos.responseWriter")
+	}
+	// staging code: the writer's methods other than Close and what they call in the package - but not the bodies of
+	// the function literals they queue, which run at Close. Flush code: Close, the queued literals, and what those call.
+	stage, flush := map[*ssa.Function]bool{}, map[*ssa.Function]bool{}
+	var walk func(f *ssa.Function, set map[*ssa.Function]bool)
+	walk = func(f *ssa.Function, set map[*ssa.Function]bool) {
+		if f == nil || set[f] || len(f.Blocks) == 0 {
+			return
 		}
-		before := n
-		for _, f := range allSSAFuncs(sf) {
-			for _, call := range callsIn(f) {
-				o := staticCalleeObj(call.Call)
-				if o == nil || o.Pkg() == nil || o.Pkg().Path() != "os" || !destructive[o.Name()] {
-					continue
-				}
-				if f.Parent() != nil || sf.Name() == "Close" {
-					inClosures++
-					continue
-				}
-				n++
-				c.Ob(rule, ssaFuncName(f)+"/os."+o.Name(), call.Pos(), false, true, "os.%s runs while responses are still being staged: a generation that fails later has already replaced or created the output", o.Name())
+		set[f] = true
+		for _, call := range callsIn(f) {
+			if sc := call.Call.StaticCallee(); sc != nil && sc.Pkg != nil && sc.Pkg.Pkg == pk.Types {
+				walk(sc, set)
+			} else if sc != nil && sc.Parent() != nil && sc.Parent().Pkg != nil && sc.Parent().Pkg.Pkg == pk.Types {
+				walk(sc, set) // a literal called on the spot
 			}
 		}
-		if sf.Name() != "Close" && n == before {
-			c.Ob(rule, ssaFuncName(sf)+"/stages-only", sf.Pos(), true, true, "no file is created, truncated, renamed or removed outside the queued closures")
+	}
+	var literals []*ssa.Function
+	for _, sf := range p.SSAFuncsOf([]*packages.Package{pk}) {
+		if isWriter(sf) && sf.Name() != "Close" {
+			walk(sf, stage)
 		}
 	}
-	c.Ob(rule, "flush-closures", token.NoPos, inClosures > 0, true, "%d file-creating call(s) found in queued closures / Close; %d outside", inClosures, n)
+	for f := range stage {
+		literals = append(literals, f.AnonFuncs...)
+	}
+	for _, sf := range p.SSAFuncsOf([]*packages.Package{pk}) {
+		if isWriter(sf) && sf.Name() == "Close" {
+			walk(sf, flush)
+		}
+	}
+	for _, l := range literals {
+		if !stage[l] {
+			walk(l, flush)
+		}
+	}
+	n, inFlush := 0, 0
+	count := func(f *ssa.Function) []ssaCall {
+		var out []ssaCall
+		for _, call := range callsIn(f) {
+			if o := staticCalleeObj(call.Call); o != nil && o.Pkg() != nil && o.Pkg().Path() == "os" && destructive[o.Name()] {
+				out = append(out, call)
+			}
+		}
+		return out
+	}
+	var stageFns []*ssa.Function
+	for f := range stage {
+		stageFns = append(stageFns, f)
+	}
+	sort.Slice(stageFns, func(i, j int) bool { return ssaFuncName(stageFns[i]) < ssaFuncName(stageFns[j]) })
+	for _, f := range stageFns {
+		calls := count(f)
+		for _, call := range calls {
+			n++
+			c.Ob(rule, ssaFuncName(f)+"/os."+staticCalleeObj(call.Call).Name(), call.Pos(), false, true, "os.%s runs while responses are still being staged: a generation that fails later has already replaced or created the output", staticCalleeObj(call.Call).Name())
+		}
+		if len(calls) == 0 && f.Parent() == nil && isWriter(f) {
+			c.Ob(rule, ssaFuncName(f)+"/stages-only", f.Pos(), true, true, "no file is created, truncated, renamed or removed outside the queued closures")
+		}
+	}
+	for f := range flush {
+		if !stage[f] {
+			inFlush += len(count(f))
+		}
+	}
+	c.Ob(rule, "flush-closures", token.NoPos, inFlush > 0, true, "%d file-creating call(s) found in the code that runs at Close (queued literals and what they call); %d in staging code", inFlush, n)
 }
